@@ -270,6 +270,7 @@ def run_case(case):
                     by_call[str(cid)] = f
             final.update({
                 "dir": dir_snapshot(cache_dir),
+                "nfiles": len(os.listdir(cache_dir)) if os.path.isdir(cache_dir) else 0,
                 "futures_by_call": {str(getattr(f, "_call_id", 0) or f.fid): f.obs() for f in ctl.futures},
                 "futures": {str(f.fid): f.obs() for f in ctl.futures},
                 "values": {str(f.fid): value_repr(f) for f in ctl.futures},
@@ -288,7 +289,7 @@ def run_case(case):
         if not final:
             capture()
         sess_out.append({"verdict": ctl.verdict, "outcomes": outcomes, "snaps": snaps, "steps": len(ctl.log),
-                         "dir": final["dir"], "futures": final["futures_by_call"]})
+                         "dir": final["dir"], "nfiles": final["nfiles"], "futures": final["futures_by_call"]})
         if si < len(sessions) - 1:
             ctl.kill_all()
     last = sess_out[-1]
@@ -309,6 +310,7 @@ def run_case(case):
         "queues": final["queues"],
         "parked": final["parked"],
         "dir": final["dir"],
+        "nfiles": final["nfiles"],
         "install_error": ctl.extra.get("install_error") or ctl.extra.get("capture_error"),
         "graphs": drawn_graphs(),
     }
